@@ -129,6 +129,12 @@ for ph in phases:
 //@   ensures[C05.keepdata] err == nil ==> %(keep)s
 //@   ensures[C05.frame,C10.frame] err == nil ==> dkgOthersSame(m, rq%(n)s(args).ParticipantId) && unchanged("[]byte")
 """ % dict(ph, req=req, keep=keep))
+    if ph["n"] == "MasterKey":
+        w("""// the public polynomial the node keeps for reconstruction: an announcement that carries one is accepted only if it
+// repeats what was announced before, and an accepted announcement never replaces a polynomial already kept
+//@   ensures[C02.pubpoly] err == nil && old(len(dp(m).PubPolyBz)) > 0 && len(rqMasterKey(args).PubPolyBz) > 0 ==> old(content(dp(m).PubPolyBz)) == old(content(rqMasterKey(args).PubPolyBz))
+//@   ensures[C02.pubpoly] err == nil && old(len(dp(m).PubPolyBz)) > 0 ==> content(dp(m).PubPolyBz) == old(content(dp(m).PubPolyBz))
+""")
     # validator
     w("""
 //@ func (*DKGProposalFSM).%(val)s
